@@ -60,3 +60,6 @@ func VerifLoadPath(root string) (map[string][]byte, error) { return loadPath(roo
 
 // VerifMaxSize is the size above which loadPath skips a file.
 const VerifMaxSize = MaxSize
+
+// VerifBase exposes base (the URL the names of an HTTP source's list are appended to).
+func VerifBase(rawurl string) (string, error) { return base(rawurl) }
